@@ -34,6 +34,7 @@ INPUTS = {
     "own-csv": (BASE + 'taskreport zzz_own "zzz_own" { formats csv columns name }\n').encode(),
     "macro": ('macro eff [effort 5h]\n' + BASE.replace("effort 5h", "${eff}")).encode(),
 }
+INPUTS_EXTRA = {}
 EXPECT_ROWS = {"a": ("2025-01-06-09:00", "2025-01-06-14:00"), "g": ("2025-01-06-14:00", "2025-01-06-17:00"),
                "g.b": ("2025-01-06-14:00", "2025-01-06-17:00")}
 
@@ -102,6 +103,13 @@ def main():
             shutil.rmtree(tmp, ignore_errors=True)
             return rc, out
 
+        for odd in ("proj.txt", "proj", "PROJ.TJP", "proj.tjp.bak"):
+            open(os.path.join(data, odd), "wb").write(INPUTS["lf"])
+        for nm in ("../escaped", "../../escaped2", "sub/../../escaped3"):
+            key = "own-" + nm.replace("/", "_").replace(".", "")
+            INPUTS_EXTRA[key] = (BASE + f'taskreport "{nm}" {{ formats json columns id, start }}\n').encode()
+            paths[key] = os.path.join(data, key + ".tjp")
+            open(paths[key], "wb").write(INPUTS_EXTRA[key])
         solitary = {}
         for name, b in INPUTS.items():
             for fmt, flag in (("json", []), ("csv", ["--csv"])):
@@ -114,6 +122,14 @@ def main():
                 solitary[(name, fmt)] = outs[0]
                 if prop == "C19" and not (outs[0] == outs[1] == outs[2]):
                     fails.append({"clause": "C19:file-vs-stdin", "key": f"{name}/{fmt}", "detail": "stdout differs between file, '-' and stdin", "input": name})
+        # a file argument whose name does not end in '.tjp' (a notice may be printed - on stderr)
+        for odd in ("proj.txt", "proj", "PROJ.TJP", "proj.tjp.bak"):
+            for fmt, flag in (("json", []), ("csv", ["--csv"])):
+                one(f"odd-name/{odd}/{fmt}", ["report"] + flag + [os.path.join(data, odd)], None, 0, INPUTS["lf"], fmt)
+        # a project whose own report name tries to climb out of the per-run output directory
+        for key, b in INPUTS_EXTRA.items():
+            one(f"{key}/json/file", ["--quiet", "report", paths[key]], None, 0, b, "json")
+            one(f"{key}/json/stdin", ["--quiet", "report", "-"], b, 0, b, "json")
         # without --quiet the progress lines must go to stderr, not stdout
         one("lf/json/file/verbose", ["--verbose", "report", paths["lf"]], None, 0, INPUTS["lf"], "json")
         one("lf/json/file/default", ["report", paths["lf"]], None, 0, INPUTS["lf"], "json")
